@@ -246,6 +246,15 @@ func (st *State) genCandidates(li *loopInfo, ws *writeSet) []candidate {
 			cur, ok := s.heap[hn]
 			return Eq(cur, entry), ok
 		})
+		// objects that existed when the loop was entered are untouched (bodies that write objects they allocate only)
+		{
+			la := st.alloc
+			rr := Term{"r!q", SInt}
+			add("loopmem("+hn+")", func(s *State) (Term, bool) {
+				cur, ok := s.heap[hn]
+				return Forall([]Term{rr}, Implies(And(Le(IntLit(0), rr), Le(rr, la)), Eq(Select(cur, rr), Select(entry, rr)))), ok
+			})
+		}
 		// memory that existed at function entry is untouched (functions that write fresh memory only)
 		if st.entry != nil {
 			if fe, ok := st.entry.heap[hn]; ok {
